@@ -22,6 +22,10 @@ impl Worker {
         let mut child = Command::new("node")
             .arg("--experimental-vm-modules")
             .arg("--no-warnings")
+            // the same program text is compiled for several contexts (original / rewritten run, several realm seeds): with V8's
+            // compilation cache a strict-mode assignment to an undeclared global stops throwing from the second context on
+            // (Node 20.20; seen as a nondeterministic strictness difference) - every compilation is a fresh one here
+            .arg("--no-compilation-cache")
             .arg(format!("{}/node/worker.js", crate::engine::verif_root()))
             .stdin(Stdio::piped())
             .stdout(Stdio::piped())
